@@ -36,6 +36,7 @@ REQUIRE = {
     "cover": {"operation": ["ConfigLoader.mask_params", "build_amp_matrix", "build_angle_amp_matrix", "build_int_matrix", "cal_fitfractions",
                             "factor_iteration", "fit_fractions(new)", "fit_fractions(old)", "mask_params",
                             "nested(mask_params>temp_total_gls_one>partial_weight>vm.temp_params)", "nested(temp_params>temp_used_res>mask_params)",
+                            "nested(mask_params>mask_params)", "nested(mask_params>factor_iteration)", "nested(factor_iteration>mask_params)",
                             "partial_weight", "partial_weight_interference", "temp_config", "temp_params", "temp_params(positional)",
                             "temp_total_gls_one", "temp_used_res", "vm.mask_params", "vm.temp_params"]},
 }
@@ -231,7 +232,28 @@ def run(ctx):
                         amp(probe)
                         body()
 
+        def nested3(body):
+            with amp.mask_params({pnames[0]: 0.5}):
+                with amp.vm.mask_params({pnames[-1]: 0.25}):
+                    amp(probe)
+                with cfg.mask_params({pnames[-1]: 0.75}):
+                    amp(probe)
+                    body()
+
+        def nested4(body):
+            with amp.mask_params({pnames[0]: 0.5}):
+                for _ in amp.factor_iteration(deep=2):
+                    amp(probe)
+                body()
+
+        def nested5(body):
+            for _ in amp.factor_iteration(deep=1):
+                with amp.mask_params({pnames[0]: 0.5}):
+                    amp(probe)
+            body()
+
         ops = {
+            "nested(mask_params>mask_params)": nested3, "nested(mask_params>factor_iteration)": nested4, "nested(factor_iteration>mask_params)": nested5,
             "partial_weight": op_partial_weight, "partial_weight_interference": op_partial_interf, "fit_fractions(old)": op_ff_old,
             "fit_fractions(new)": op_ff_new, "cal_fitfractions": op_cal_ff, "factor_iteration": op_factor_iter, "build_amp_matrix": op_amp_matrix,
             "build_angle_amp_matrix": op_angle_amp_matrix, "build_int_matrix": op_int_matrix,
@@ -247,7 +269,7 @@ def run(ctx):
         op_names = list(ops)
         # a rotating subset per card in the quick tier
         if ctx.tier == "quick":
-            op_names = [op_names[(i * 5 + j) % len(op_names)] for j in range(5)]
+            op_names = [op_names[(i * 6 + j) % len(op_names)] for j in range(6)]
         for start in ("full", "restricted"):
             if start == "restricted" and nch < 2:
                 continue
